@@ -112,6 +112,9 @@ func sameNameB() reflect.Type {
 // ---- descriptors by reflection ----
 
 func typeSx(t reflect.Type) string {
+	if t.PkgPath() != "" && t.Name() != "" && t.Kind() != reflect.Struct {
+		return "other" // a defined scalar type: nothing the library produces is assignable to it
+	}
 	switch t.Kind() {
 	case reflect.String:
 		return "str"
@@ -310,7 +313,15 @@ var scalarTypes = []reflect.Type{reflect.TypeOf(""), reflect.TypeOf(true), refle
 	reflect.TypeOf(int64(0)), reflect.TypeOf(uint(0)), reflect.TypeOf(uint8(0)), reflect.TypeOf(uint16(0)), reflect.TypeOf(uint32(0)), reflect.TypeOf(uint64(0)),
 	reflect.TypeOf(float32(0)), reflect.TypeOf(float64(0)), reflect.TypeOf(""), reflect.TypeOf(int(0))}
 
-var otherTypes = []reflect.Type{reflect.TypeOf(map[string]int{}), reflect.TypeOf([2]int{}), reflect.TypeOf(make(chan int)), reflect.TypeOf(func() {}), reflect.TypeOf((*interface{})(nil)).Elem()}
+// defined types with a supported underlying kind: a converted value is not ASSIGNABLE to them (only convertible)
+type definedStr string
+type definedInt int
+type definedF64 float64
+type definedBool bool
+type definedU8 uint8
+
+var otherTypes = []reflect.Type{reflect.TypeOf(map[string]int{}), reflect.TypeOf([2]int{}), reflect.TypeOf(make(chan int)), reflect.TypeOf(func() {}), reflect.TypeOf((*interface{})(nil)).Elem(),
+	reflect.TypeOf(definedStr("")), reflect.TypeOf(definedInt(0)), reflect.TypeOf(definedF64(0)), reflect.TypeOf(definedBool(false)), reflect.TypeOf(definedU8(0))}
 
 type unmGen struct {
 	r *Rng
